@@ -48,6 +48,12 @@ Theorem C25_whitespace_table : forall c, is_ws c = true <-> In c white_space.
 Proof. exact is_ws_spec. Qed.
 Print Assumptions C25_whitespace_table.
 
+(* ... also when newlines are counted on the BYTES of the UTF-8 text, as `match_indices('\n')` does. *)
+Theorem C25_count_lines_bytes : forall s, Forall valid_cp s ->
+  count_lines s = Z.of_nat (count_occ Z.eq_dec (utf8_bytes s) 10) + 1.
+Proof. intros s Hv. rewrite count_nl_bytes by exact Hv. apply count_lines_spec. Qed.
+Print Assumptions C25_count_lines_bytes.
+
 (* The position of a byte index inside the text (its end included) is (l, c) where line l starts
    c bytes before the index and the index lies in that line or on its terminating newline — hence
    no newline strictly between the line start and the index, the line being newline-free. *)
@@ -56,6 +62,13 @@ Theorem C25_pos : forall s i, 0 <= i <= byte_len s ->
               line_start s l + c = i /\ c <= byte_len (line s l).
 Proof. exact get_pos_pair_in_range. Qed.
 Print Assumptions C25_pos.
+
+(* The same on the bytes: no newline byte strictly between the start of line l and the index. *)
+Theorem C25_pos_no_newline_between : forall s i, Forall valid_cp s -> 0 <= i <= byte_len s ->
+  exists l c, get_pos_pair_res s i = Some (l, c) /\ line_start s l + c = i /\
+    forall j, line_start s l <= j < i -> nth (Z.to_nat j) (utf8_bytes s) 0 <> 10.
+Proof. exact get_pos_pair_no_nl_between. Qed.
+Print Assumptions C25_pos_no_newline_between.
 
 (* ... and that determines l: at most one line satisfies it. *)
 Theorem C25_pos_unique : forall s i l l', 0 <= l <= count_nl s -> 0 <= l' <= count_nl s ->
